@@ -947,9 +947,7 @@ def getattr(I, obj, name):
     if isinstance(obj, Closure) or isinstance(obj, AbsFun) or isinstance(obj, Builtin):
         if name in obj.attrs:
             return obj.attrs[name]
-        if isinstance(obj, AbsFun) and name not in obj.missing_attrs and not name.startswith('__'):
-            raise Unsupported('attribute %s of abstract callable %s is not declared' % (name, obj.name))
-        raise PyExc('AttributeError', name)
+        raise PyExc('AttributeError', name)    # abstract callables are plain functions: only declared attrs
     if isinstance(obj, BoundMethod):
         return getattr(I, obj.func, name)
     if isinstance(obj, ClassRef):
